@@ -30,6 +30,7 @@ Next ==
                        <<"ExecOutcome",  IsDirect(e) \/ MonExecOutcome(e.pre, o, e.ok, e.post)>>,
                        <<"ExecOnce",     IsDirect(e) \/ MonExecOnce(e.pre, o, e.ok)>>,
                        <<"TerminalKept", IsDirect(e) \/ MonTerminalKept(e.pre, e.post)>>,
+                       <<"TerminalClosable", IsDirect(e) \/ MonTerminalClosable(e.pre, o, e.ok)>>,
                        <<"DirectTerminal", ~IsDirect(e) \/ MonDirectTerminal(e.pre.st[e.a], e.ok)>>,
                        <<"HardFail",     IsDirect(e) \/ MonHardFail(e.ok, e.pre, e.post, e.worldSame)>> >>)
        /\ Drift(i', IF IsDirect(e) THEN DirectConforms(e) ELSE Conforms(e.pre, o, P, e.ok, e.post), e.op)
